@@ -39,6 +39,12 @@ CHECKS = {
         text="Programs: corpus procedures with par loops as written, parallelize_loop at every loop position / pairs of positions / inside callees via call_eqv, and the same on one-edit source mutants. Whenever the real backend compiles such a program, z3 decides for all inputs within bounds that no two iterations of any parallel loop conflict (write-write, write-read, reduce-reduce, configuration writes included).",
         note="Trip counts <= N. States come from the sequential execution, so nothing unreachable is considered. OpenMP runtime is outside.",
         design="5/C09"),
+    "C11": dict(
+        category=MC, engine="py2smt",
+        technique="inductive step by symbolic execution of proc_eqv.py from its AST (py2smt) into z3 bit-vector/Boolean formulas: from an arbitrary invariant-satisfying state, every operation preserves the invariant and matches the per-key closure specification; queries answer exactly the abstract relations; obligations discharged from SMT-LIB2 dumps in parallel",
+        text="One inductive step from an ARBITRARY valid state (forests of up to 4 procedures, up to 3 keys of which any may be untracked) covers histories of any length: decl_new_proc, derive_proc, assert_eqv_proc with a symbolic modulo-set (including keys first mentioned now), check_eqv_proc and get_strictest_eqv_proc are executed symbolically from the current source; the invariant is proved established by the empty state. Cross-check: all histories up to length 3 (4 thorough) over 3 procedures / 2 keys replayed on the real module against a reference closure.",
+        note="Bounded: n<=4 procedures, K<=3 keys, find unrolled n times with an unwinding obligation. py2smt aborts (exit 3) on any construct outside its subset and is validated against the real module on random concrete histories on every run. A step counterexample that no explored history reproduces is reported as a harness condition (invariant too weak), not as a violation.",
+        design="5/C11"),
     "C12": dict(
         category=TV, engine="exprtv",
         technique="lock-step walk of original and simplified LoopIR; per pair of corresponding control expressions a z3 query PC /\\ old != new over unbounded integers (LIA + div/mod by literals); removed branches/loops need PC => (not) cond / hi <= lo; models replayed by a solver-free evaluator",
@@ -70,7 +76,7 @@ NOT_APPLICABLE = [
     ("C18", "Quantifies over CPython hash seeds and process histories; encoding it needs a model of the interpreter's dict/set implementation, not of Exo (DESIGN 6)."),
 ]
 
-PENDING = {p: 'check under construction in this round (design in DESIGN.md section 5); not claimed until its command exists' for p in ['C02','C05','C06','C08','C10','C11','C14','C16']}
+PENDING = {p: 'check under construction in this round (design in DESIGN.md section 5); not claimed until its command exists' for p in ['C02','C05','C06','C08','C10','C14','C16']}
 
 
 def main():
@@ -103,6 +109,7 @@ def main():
         },
         "engines": [
             {"name": "crosshair+z3", "path": "vlib/check_c13.py", "serves_properties": ["C13", "C06", "C16"], "kind_free_text": "CrossHair 0.0.110 harnesses generated per run against the real Python kernels"},
+            {"name": "py2smt", "path": "vlib/py2smt.py", "serves_properties": ["C11"], "kind_free_text": "Python-AST -> z3 interpreter for exo/core/proc_eqv.py"},
             {"name": "exprtv", "path": "vlib/exprtv.py", "serves_properties": ["C12", "C13"], "kind_free_text": "lock-step expression pairing + unbounded LIA queries"},
             {"name": "loopsym", "path": "vlib/loopsym.py", "serves_properties": ["C01", "C03", "C04", "C05", "C07", "C09", "C10", "C12", "C17", "C19"], "kind_free_text": "bounded symbolic interpreter of Exo LoopIR into z3 + solver-free replay interpreter"},
         ],
